@@ -116,6 +116,27 @@ class OpenerMonitor(Monitor):
                     ctx.counters['exposed_hand_ties'] += 1
 
     def on_op(self, ctx, s, op):
+        k = type(op).__name__
+        if k in ('AntePosting', 'BlindOrStraddlePosting'):
+            # the seat the layout names pays the forced bet; heads-up the
+            # layout is read reversed (button = small blind), antes and
+            # blinds alike
+            i = op.player_index
+            n = s.player_count
+            j = (1 - i) if n == 2 else i
+            layout = s.antes if k == 'AntePosting' else s.blinds_or_straddles
+            start = s.starting_stacks[i]
+            if k == 'BlindOrStraddlePosting':
+                start = start - min(start, s.antes[j])
+            exp = min(start, abs(layout[j]))
+            ctx.counters['forced_bets_checked'] += 1
+            if op.amount != exp:
+                ctx.violate(
+                    f'{k} of player {i}: {op.amount}, the layout '
+                    f'{"(read reversed heads-up) " if n == 2 else ""}'
+                    f'names {abs(layout[j])} for that seat and he has '
+                    f'{start} (antes {s.antes}, blinds '
+                    f'{s.blinds_or_straddles}, stacks {s.starting_stacks})')
         if type(op).__name__ == 'Folding' and self.expect_bring_in is not None:
             ctx.violate(f'player {op.player_index} folded while the bring-in '
                         f'of player {self.expect_bring_in} was pending')
